@@ -187,3 +187,10 @@ def audit(modules: list[str]) -> dict:
                 res["bad_axioms"][n] = extra
     res["ok"] = not res["forbidden"] and not res["bad_axioms"]
     return res
+
+
+def leancheck(modules: list[str], timeout=1800) -> tuple[bool, str]:
+    """thorough tier: Lean's independent re-checker replays the compiled .olean files of the property's modules through the kernel"""
+    p = subprocess.run(["lake", "env", "leanchecker", *modules], cwd=LEAN_DIR, env=_env(), capture_output=True, text=True, timeout=timeout)
+    out = "\n".join(l for l in (p.stdout + p.stderr).splitlines() if "WARNING conda" not in l)
+    return p.returncode == 0 and "exception" not in out.lower() and "error" not in out.lower(), out
